@@ -12,6 +12,8 @@ package main
 import (
 	"encoding/json"
 	"fmt"
+	"os"
+	"runtime/pprof"
 	"sort"
 	"strings"
 	"sync"
@@ -25,6 +27,11 @@ import (
 	"verif/internal/opdrv"
 	"verif/internal/vstore"
 )
+
+var stopProfile = func() {}
+
+// C10_TRACE=1 prints one line per judged case (development aid, most useful together with --replay).
+var traceCases = os.Getenv("C10_TRACE") != ""
 
 var kindNames = [vstore.NumFaultKinds]string{"plain-error", "context-deadline", "oidc-server_error"}
 
@@ -305,6 +312,9 @@ func (h *harness) runCase(c *combo, cd caseDef, caseIdx int) {
 		return
 	}
 	vd := judge(f, x.e, x.resp, x.journal)
+	if traceCases {
+		fmt.Printf("TRACE %s %s %s %s/%s failed=%s -> %s%s | %s\n", rn, fname, v, planName(plan), kindNames[plan.Kind], failed, vd.Outcome, vd.Class, brief(x.resp, 300))
+	}
 	run.Distinct(rn + "|" + fname + "|" + v.String() + "|" + planName(plan) + "|" + kindNames[plan.Kind])
 	run.Count("failed_method", failed)
 	run.Observed("method-faulted:" + failed)
@@ -376,6 +386,13 @@ func (h *harness) runCase(c *combo, cd caseDef, caseIdx int) {
 }
 
 func main() {
+	if p := os.Getenv("C10_PROFILE"); p != "" {
+		if fh, err := os.Create(p); err == nil {
+			_ = pprof.StartCPUProfile(fh)
+			defer pprof.StopCPUProfile()
+			stopProfile = pprof.StopCPUProfile
+		}
+	}
 	run := ev.Start("C10", "fault_enumeration")
 	thorough := run.Tier == ev.Thorough
 	h := &harness{run: run, flows: catalogue(), variants: variantsFor(thorough), quickVar: 3}
@@ -493,5 +510,6 @@ func main() {
 	if !complete {
 		run.Extra("explanation", fmt.Sprintf("enumeration incomplete: %d unusable fault-free runs, %d faults did not fire, %d of %d cases executed", h.baseBad.Load(), h.notFired.Load(), h.executed.Load(), len(all)))
 	}
+	stopProfile()
 	run.Finish()
 }
